@@ -275,6 +275,16 @@ module.exports.ops = ({ acorn }) => {
   const rules = require('./scoperules');
   return {
     scope: async (req) => { try { return { ok: true, res: analyze(req.code, req.goal || 'script', !!req.tags) }; } catch (e) { return { ok: false, err: String(e && e.message) }; } },
+    // free identifier references of a program (names that resolve to no declaration), minus the engine's own globals
+    freenames: async (req) => {
+      try {
+        const res = analyze(req.code, req.goal || 'script', false);
+        const builtins = new Set(Object.getOwnPropertyNames(globalThis));
+        const names = new Set();
+        for (const o of res.occ) if (o.ns === 'id' && o.role === 'ref' && o.raw === -1 && !builtins.has(o.name)) names.add(o.name);
+        return { ok: true, names: [...names].sort() };
+      } catch (e) { return { ok: false, err: String(e && e.message) }; }
+    },
     bindcheck: async (req) => rules.bindcheck(analyze, req),
     bindalign: async (req) => rules.bindalign(analyze, req),
   };
